@@ -31,6 +31,9 @@ impl TypeChecker {
         for arm in arms {
             self.symbols.enter_scope(ScopeKind::Block);
             self.check_pattern(&arm.node.pattern, &subject_ty);
+            if let Some(guard) = &arm.node.guard {
+                self.check_expr(guard);
+            }
 
             let arm_ty = match &arm.node.body {
                 MatchBody::Expr(e) => self.check_expr(e),
@@ -180,6 +183,10 @@ impl TypeChecker {
             let mut has_wildcard = false;
 
             for arm in arms {
+                // A guarded arm may be skipped at run time, so it covers nothing.
+                if arm.node.guard.is_some() {
+                    continue;
+                }
                 match &arm.node.pattern.node {
                     Pattern::Wildcard | Pattern::Binding(_) => {
                         has_wildcard = true;
